@@ -95,7 +95,7 @@ fn run_once<S: Send + Sync + 'static>(schedule: Vec<usize>, setup: &dyn Fn() -> 
 }
 
 /// stateless DFS over all schedules
-fn explore<S: Send + Sync + 'static>(name: &str, setup: &dyn Fn() -> Arc<S>, bodies: &[fn(&S) -> String], observe: &dyn Fn(&S) -> String) {
+fn explore<S: Send + Sync + 'static>(name: &str, setup: &dyn Fn() -> Arc<S>, bodies: &[fn(&S) -> String], observe: &dyn Fn(&S) -> String, verbose: bool) -> (usize, BTreeMap<Outcome, (usize, Vec<usize>)>) {
     let mut outcomes: BTreeMap<Outcome, (usize, Vec<usize>)> = BTreeMap::new(); let mut sched: Vec<usize> = vec![]; let mut runs = 0usize;
     loop {
         let (o, dec) = run_once(sched.clone(), setup, bodies, observe); runs += 1;
@@ -107,24 +107,61 @@ fn explore<S: Send + Sync + 'static>(name: &str, setup: &dyn Fn() -> Arc<S>, bod
         match next { Some(s) => sched = s, None => break }
         if runs > 200_000 { println!("  (cut off)"); break; }
     }
-    println!("{name}: {runs} schedules, {} distinct outcomes", outcomes.len());
-    for (o, (c, s)) in &outcomes { println!("  [{c:5}] results={:?} state={} deadlock={} e.g. schedule={:?}", o.results, o.state, o.deadlock, s); }
+    if verbose { println!("{name}: {runs} schedules, {} distinct outcomes", outcomes.len());
+    for (o, (c, s)) in &outcomes { println!("  [{c:5}] results={:?} state={} deadlock={} e.g. schedule={:?}", o.results, o.state, o.deadlock, s); } }
+    (runs, outcomes)
 }
 
-use gdsl::sync_digraph::{Edge, Node};
-type N = Node<usize, (), u32>;
-struct Two { u: N, v: N }
-fn obs(s: &Two) -> String { format!("u.out={:?} u.in={:?} v.out={:?} v.in={:?}",
-    s.u.iter_out().map(|Edge(_, x, e)| (*x.key(), e)).collect::<Vec<_>>(), s.u.iter_in().map(|Edge(x, _, e)| (*x.key(), e)).collect::<Vec<_>>(),
-    s.v.iter_out().map(|Edge(_, x, e)| (*x.key(), e)).collect::<Vec<_>>(), s.v.iter_in().map(|Edge(x, _, e)| (*x.key(), e)).collect::<Vec<_>>()) }
+
+macro_rules! flavour { ($m:ident, $fl:ident, $obs:expr) => { mod $m {
+    use super::*; use gdsl::$fl::{Edge, Node};
+    pub type N = Node<usize, (), u32>;
+    pub struct Two { pub u: N, pub v: N }
+    pub fn obs(s: &Two) -> String { let f: &dyn Fn(&N) -> String = &$obs; format!("u:{} v:{}", f(&s.u), f(&s.v)) }
+    pub const OPS: [(&str, fn(&Two) -> String); 7] = [
+        ("connect(u,v)", |s| { s.u.connect(&s.v, 1); "ok".into() }),
+        ("connect(v,u)", |s| { s.v.connect(&s.u, 2); "ok".into() }),
+        ("try_connect(u,v)", |s| format!("{:?}", s.u.try_connect(&s.v, 3).map_err(|e| e.to_string()))),
+        ("disconnect(u,v)", |s| format!("{:?}", s.u.disconnect(&1).map_err(|e| e.to_string()))),
+        ("disconnect(v,u)", |s| format!("{:?}", s.v.disconnect(&0).map_err(|e| e.to_string()))),
+        ("isolate(u)", |s| { s.u.isolate(); "ok".into() }),
+        ("isolate(v)", |s| { s.v.isolate(); "ok".into() }),
+    ];
+    pub fn inits() -> Vec<(&'static str, Box<dyn Fn() -> Arc<Two>>)> { vec![
+        ("empty", Box::new(|| Arc::new(Two { u: Node::new(0, ()), v: Node::new(1, ()) }))),
+        ("u->v", Box::new(|| { let t = Two { u: Node::new(0, ()), v: Node::new(1, ()) }; t.u.connect(&t.v, 7); Arc::new(t) })),
+        ("u->v,v->u", Box::new(|| { let t = Two { u: Node::new(0, ()), v: Node::new(1, ()) }; t.u.connect(&t.v, 7); t.v.connect(&t.u, 8); Arc::new(t) })),
+    ] }
+    pub fn survey() {
+        let mut total = 0usize; let mut findings: BTreeMap<(String, String), (usize, String)> = BTreeMap::new();
+        for (iname, init) in inits() { for a in 0..OPS.len() { for b in a..OPS.len() {
+            // sequential outcomes
+            let mut seq = vec![];
+            for order in [[a, b], [b, a]] { let s = init(); let mut r = vec![String::new(), String::new()];
+                for &k in &order { let idx = if k == a && (r[0].is_empty()) && (order[0] == a || !r[1].is_empty() || a == b) { 0 } else { 1 }; let _ = idx; }
+                // run in order, results stored by thread index (thread 0 = a, thread 1 = b)
+                let first = order[0]; let second = order[1];
+                let r1 = catch_unwind(AssertUnwindSafe(|| (OPS[first].1)(&s))).unwrap_or("PANIC".into()); let r2 = catch_unwind(AssertUnwindSafe(|| (OPS[second].1)(&s))).unwrap_or("PANIC".into());
+                let results = if first == a { vec![r1, r2] } else { vec![r2, r1] };
+                if a == b { let mut sw = results.clone(); sw.reverse(); seq.push((sw, obs(&s))); }
+                seq.push((results, obs(&s))); }
+            let (runs, outcomes) = explore("", &*init, &[OPS[a].1, OPS[b].1], &obs, false); total += runs;
+            for (o, (c, sch)) in &outcomes {
+                let kind = if o.deadlock { "deadlock" } else if o.results.iter().any(|r| r == "PANIC") || o.state.contains("OBSERVE-PANIC") { "panic+poison" }
+                    else if seq.iter().any(|(r, st)| *r == o.results && *st == o.state) { continue } else if seq.iter().any(|(_, st)| *st == o.state) { "wrong-return" } else { "torn-state" };
+                let key = (format!("{} || {}", OPS[a].0, OPS[b].0), kind.to_string());
+                let e = findings.entry(key).or_insert((0, format!("init={iname} results={:?} state=[{}] schedule={:?}", o.results, o.state, sch))); e.0 += c; }
+        } } }
+        println!("{}: {} schedules explored, {} (operation pair, failure kind) classes are not equal to any sequential order:", stringify!($fl), total, findings.len());
+        for ((pair, kind), (c, ex)) in &findings { println!("  {pair:38} {kind:13} [{c:4} schedules] e.g. {}", &ex[..ex.len().min(150)]); }
+    }
+} } }
+flavour!(sdi, sync_digraph, |n: &N| format!("out={:?} in={:?}", n.iter_out().map(|Edge(_, x, e)| (*x.key(), e)).collect::<Vec<_>>(), n.iter_in().map(|Edge(x, _, e)| (*x.key(), e)).collect::<Vec<_>>()));
+flavour!(sun, sync_ungraph, |n: &N| format!("adj={:?}", n.iter().map(|Edge(_, x, e)| (*x.key(), e)).collect::<Vec<_>>()));
 
 fn main() {
     std::panic::set_hook(Box::new(|_| {}));
     install(Box::new(hook));
-    let fresh = || Arc::new(Two { u: Node::new(0, ()), v: Node::new(1, ()) });
-    explore("connect(u,v,1) || disconnect(u,v)", &fresh, &[|s: &Two| { s.u.connect(&s.v, 1); "ok".into() }, |s: &Two| format!("{:?}", s.u.disconnect(&1).map_err(|e| e.to_string()))], &obs);
-    explore("connect(u,v,1) || connect(u,v,2)", &fresh, &[|s: &Two| { s.u.connect(&s.v, 1); "ok".into() }, |s: &Two| { s.u.connect(&s.v, 2); "ok".into() }], &obs);
-    explore("connect(u,v,1) || isolate(u)", &fresh, &[|s: &Two| { s.u.connect(&s.v, 1); "ok".into() }, |s: &Two| { s.u.isolate(); "ok".into() }], &obs);
-    let both = || { let t = Two { u: Node::new(0, ()), v: Node::new(1, ()) }; t.u.connect(&t.v, 1); t.v.connect(&t.u, 2); Arc::new(t) };
-    explore("disconnect(u,v) || disconnect(v,u)  [u<->v]", &both, &[|s: &Two| format!("{:?}", s.u.disconnect(&1).map_err(|e| e.to_string())), |s: &Two| format!("{:?}", s.v.disconnect(&0).map_err(|e| e.to_string()))], &obs);
+    sdi::survey();
+    sun::survey();
 }
